@@ -23,7 +23,7 @@ MAPS = {
     # decoding (argument kinds and values, names, direction)
     'C01': r'^(rec|shown)\.(arg\.(kind|value)|nargs|name|dir|target\.(id|type))$',
     # labels unambiguous and usable as matchers
-    'C14': r'^(shown|stopped)\.(target|arg\.obj|dest)\.gen$|^notice(\.closed)?$|^conns\.name$|^counts$|^none\.n$|^shape\.|^shown\.(name|dir|nargs|target\.id|conn)$',
+    'C14': r'^filter$|^break$|^(shown|stopped)\.(target|arg\.obj|dest)\.gen$|^notice(\.closed)?$|^conns\.name$|^counts$|^none\.n$|^shape\.|^shown\.(name|dir|nargs|target\.id|conn)$',
     # breakpoints: halting, notices, what GDB is told to do
     'C10': r'^halt$|^exec$|^shape\.(want\.stopped|missing\.stopped|extra\.stopped|want\.\w+\.got\.stopped)|^stopped\.(name|dir|nargs|target\.id)$|^break(\.len)?$|^selected$',
     # GDB mode follows libwayland's connections
